@@ -11,6 +11,7 @@ import os
 import sys
 
 sys.path.insert(0, os.path.dirname(os.path.dirname(os.path.abspath(__file__))))
+sys.path.insert(0, os.path.dirname(os.path.abspath(__file__)))
 import ais  # noqa: E402
 
 GEN = ['GenConst.v']
@@ -435,7 +436,12 @@ def check_cases(ctx, cases, with_messages=False, variants=VARIANTS, samples=True
         stream = b''.join(chunks)
         rep.case((stream, tuple(len(c) for c in chunks), variant), kind=kind)
         _PREV['runs'] = _PREV.get('now', [])[-2:]
-        got = impl_read(variant, chunks)
+        if n % 7 == 3:
+            import leapclock
+            with leapclock.leaping():      # an hour passes between any two clock readings (a chunk may come late)
+                got = impl_read(variant, chunks)
+        else:
+            got = impl_read(variant, chunks)
         _PREV['now'] = _PREV['runs'] + [(variant, chunks)]
         classes = seg_class(chunks)
         for c in classes:
